@@ -147,17 +147,6 @@ def setup(rec, tier):
 BATCHES = (1, 2, 7, 50, 400, 2000)
 
 
-def _centre_form(rng, cen, size):
-    """The centre as a caller may hand it over: a float array (most cases), a list of Python ints (whole-number position,
-    only where the shape is big enough for whole numbers to be a fair position), or not at all (the documented default)."""
-    u = rng.random()
-    if u < 0.12:
-        return np.zeros(3), "default"
-    if u < 0.3 and size >= 0.3:
-        return np.rint(cen), "python-ints"
-    return cen, "float"
-
-
 def _curved_points(rng, c, ax, n):
     ax = np.asarray(ax, float)
     u = rng.normal(size=(n, 3))
@@ -234,9 +223,9 @@ def run_case(i, rng, rec, tier, state):
         if u != 1.0:
             r, cen = r * u, cen * u
             rec.cls("curved:extreme-units")
-        cen, cform = _centre_form(rng, cen, r)
+        cen, carg, cform = gen.centre_form(rng, cen, r)
         rec.cls("centre:" + cform)
-        s = cs.Sphere(r) if cform == "default" else cs.Sphere(r, cen if cform == "float" else [int(x) for x in cen])
+        s = cs.Sphere(r) if carg is None else cs.Sphere(r, carg)
         if aged:
             info["history"], _sib = aging.age_or_sibling(s, rng)
             r, cen = float(s.radius), np.array(s.centroid, float)
@@ -250,10 +239,9 @@ def run_case(i, rng, rec, tier, state):
         if u != 1.0:
             ax, cen = [a * u for a in ax], cen * u
             rec.cls("curved:extreme-units")
-        cen, cform = _centre_form(rng, cen, max(ax))
+        cen, carg, cform = gen.centre_form(rng, cen, max(ax))
         rec.cls("centre:" + cform)
-        s = (cs.Ellipsoid(ax[0], ax[1], ax[2]) if cform == "default"
-             else cs.Ellipsoid(ax[0], ax[1], ax[2], cen if cform == "float" else [int(x) for x in cen]))
+        s = cs.Ellipsoid(ax[0], ax[1], ax[2]) if carg is None else cs.Ellipsoid(ax[0], ax[1], ax[2], carg)
         if aged:
             info["history"], _sib = aging.age_or_sibling(s, rng)
             ax, cen = [float(s.a), float(s.b), float(s.c)], np.array(s.centroid, float)
